@@ -231,8 +231,8 @@ func verifC01Select(N, M, S int) {
 
 func VerifHarness_C01_Select_1_1_0() { verifC01Select(1, 1, 0) }
 func VerifHarness_C01_Select_1_0_1() { verifC01Select(1, 0, 1) }
-func VerifHarness_C01_Select_2_1_0() { verifC01Select(2, 1, 0) }
-func VerifHarness_C01_Select_2_0_1() { verifC01Select(2, 0, 1) }
+func VerifHarness_C01_Select_1_2_0() { verifC01Select(1, 2, 0) }
+func VerifHarness_C01_Select_1_0_2() { verifC01Select(1, 0, 2) }
 func VerifHarness_C01_Select_1_1_1() { verifC01Select(1, 1, 1) }
 func VerifHarness_C01_Select_2_1_1() { verifC01Select(2, 1, 1) }
 func VerifHarness_C01_Select_1_2_2() { verifC01Select(1, 2, 2) }
